@@ -2,11 +2,13 @@ package main
 
 import (
 	_ "verifmc/checks/alloc"
+	_ "verifmc/checks/c10"
 	_ "verifmc/checks/c11"
 	_ "verifmc/checks/c12"
 	_ "verifmc/checks/c13"
 	_ "verifmc/checks/c14"
 	_ "verifmc/checks/c15"
+	_ "verifmc/checks/c18"
 	_ "verifmc/checks/optplug"
 	_ "verifmc/checks/c20"
 )
